@@ -219,8 +219,12 @@ def _observe(case: dict, directory: str) -> dict:
 
 def _lex_event(ident: int, text: str) -> dict:
     from antismash.common.hmm_rule_parser import rule_parser as rp
-    res = guarded(lambda: [[ord(ch) for ch in token.token_text] for token in rp.Tokeniser(text.expandtabs()).tokens], [[-1]])
-    return {"id": ident, "op": "lex", "chars": [ord(ch) for ch in text.expandtabs()], "toks": res["v"]}
+    res = guarded(lambda: [(tok.token_text, str(tok.type)) for tok in rp.Tokeniser(text.expandtabs()).tokens], None)
+    if res["exc"]:
+        return {"id": ident, "op": "lex", "chars": [ord(ch) for ch in text.expandtabs()], "toks": [[-1]], "texts": [], "types": []}
+    return {"id": ident, "op": "lex", "chars": [ord(ch) for ch in text.expandtabs()],
+            "toks": [[ord(ch) for ch in tok] for tok, _ in res["v"]], "texts": [tok for tok, _ in res["v"]],
+            "types": [kind for _, kind in res["v"]]}
 
 
 # ---- the shipped rule files (trace direction) ---------------------------------------------------
@@ -449,7 +453,7 @@ def run(ctx):
     if ctx.quick:
         params = {"leaves": 4, "styles": 0, "vocab": VOCAB_QUICK, "base": 0, "deep": 0}
     else:
-        params = {"leaves": 6, "styles": 1, "vocab": VOCAB_ALL, "base": 1, "deep": 300}
+        params = {"leaves": 6, "styles": 1, "vocab": VOCAB_ALL, "base": 1, "deep": 1500}
     cfg = MC_CFG % dict(params, vocab=", ".join(tlaval.to_tla(v) for v in params["vocab"]), extra="")
     wrapper = {"MC_RuleGrammar.tla": _wrapper()}
     mc = tlc.run("MC_RuleGrammar", cfg, ctx.workdir, dump=True, extra_files=wrapper, timeout=3000, seed=ctx.seed)
